@@ -179,6 +179,7 @@ def sweeps() -> Any:
 def parts(tier: str) -> List[Part]:
     if tier == "thorough":
         return [Part("instants", "given", shards=8, examples=60000, strategy=instants, soft_deadline_s=1500),
+                Part("instants_cov", "covguided", shards=4, examples=40000, strategy=instants, soft_deadline_s=1500),     # libFuzzer-driven, coverage of `taskiq` as guidance
                 Part("day_sweeps", "given", shards=8, examples=2500, strategy=sweeps, soft_deadline_s=1500)]
     return [Part("instants", "given", shards=6, examples=5000, strategy=instants, soft_deadline_s=100),
             Part("day_sweeps", "given", shards=6, examples=150, strategy=sweeps, soft_deadline_s=100)]
@@ -351,7 +352,12 @@ def loop_runs() -> Any:
             if kind == "label":
                 for e in es:
                     e.pop("add_at"), e.pop("remove_at")
-            sources.append({"kind": kind, "entries": es, "fail_polls": [], "list_latency": 0.0 if kind == "label" else lat})
+            elif d["shot_first"]:
+                # an overdue one-shot listed BEFORE the cron entries, by a source that hands out its own list and drops a sent one-shot
+                # from it in post_send: the cron entries behind it are looked at all the same
+                es.insert(0, {"id": f"o{si}", "t_off_us": -5 * 10**6, "naive": False, "add_at": 0, "remove_at": None})
+            sources.append({"kind": kind, "entries": es, "fail_polls": [], "list_latency": 0.0 if kind == "label" else lat,
+                            "live_list": bool(d["shot_first"]) and kind != "label"})
         return {"loop": True, "base_us": base, "horizon_min": d["h"], "sources": sources, "latencies": d["kick_lat"], "kick_fail": []}
 
     ent = st.tuples(st.sampled_from(["cur", "next", "next", "next2", "any", "even", "pair"]), st.sampled_from(["* * * *", "* * * *", "*/1 * * *"]),
@@ -362,6 +368,7 @@ def loop_runs() -> Any:
         "bsec": st.sampled_from([0.0, 30.0, 55.0, 57.5, 59.0, 59.9]), "h": st.integers(2, 3),
         # the first source is the label-based one: all its entries are declared on ONE task, each with an offset of its own (or none)
         "label": st.sampled_from([False, True]),
+        "shot_first": st.sampled_from([False, False, True]),
         # how long the broker takes to accept a message: a send that is still in progress when the next matching minute arrives
         # does not make the schedule any less due
         "kick_lat": st.sampled_from([[0.0], [0.0], [0.0], [90.0], [61.0, 0.0], [0.5]]),
@@ -389,15 +396,15 @@ def run_loop_case(case: Dict[str, Any]) -> Outcome:
         start = min(p[j]["t"] for p in polls)
         ev = max(p[j]["ret"] for p in polls)
         crossed = crossed or (start // MIN != ev // MIN)
-        listed = [i for p in polls for i in p[j]["listed"]]
+        listed = [i for p in polls for i in p[j]["listed"] if "cron" in ent[i]]
         want = sorted(i for i in listed if cron.matches(ent[i]["cron"], local_of(ev, ent[i]["offset"])))
-        got = sorted(k["tag"] for k in res["kicks"] if abs(k["t"] - ev) <= 2 and k["tag"] in ent)
+        got = sorted(k["tag"] for k in res["kicks"] if abs(k["t"] - ev) <= 2 and k["tag"] in ent and "cron" in ent[k["tag"]])
         if want != got:
             out.add("C13.a", f"pass {j}: listing started {clock.from_us(start).time().isoformat()} and completed {clock.from_us(ev).time().isoformat()} UTC; sent at that instant "
                              f"{[(i, ent[i]['cron'], ent[i]['offset']) for i in got]}, but the expressions matching that minute are {[(i, ent[i]['cron'], ent[i]['offset']) for i in want]}")
             break
-    out.nontrivial = crossed or any(s_["kind"] == "label" and len({repr(e["offset"]) for e in s_["entries"]}) > 1 for s_ in case["sources"])
-    out.classes = ["loop"] + (["label_source_mixed_offsets"] if any(s_["kind"] == "label" and len({repr(e["offset"]) for e in s_["entries"]}) > 1 for s_ in case["sources"]) else []) + (["listing_crossed_minute_boundary"] if crossed else []) + (["slow_source"] if any(s["list_latency"] for s in case["sources"]) else []) + (["send_outlasts_a_minute"] if max(case.get("latencies") or [0.0]) > 60 else [])
+    out.nontrivial = crossed or any(s_["kind"] == "label" and len({repr(e.get("offset")) for e in s_["entries"]}) > 1 for s_ in case["sources"])
+    out.classes = ["loop"] + (["label_source_mixed_offsets"] if any(s_["kind"] == "label" and len({repr(e.get("offset")) for e in s_["entries"]}) > 1 for s_ in case["sources"]) else []) + (["listing_crossed_minute_boundary"] if crossed else []) + (["slow_source"] if any(s["list_latency"] for s in case["sources"]) else []) + (["one_shot_listed_before_crons_live_list"] if any(s_.get("live_list") for s_ in case["sources"]) else []) + (["send_outlasts_a_minute"] if max(case.get("latencies") or [0.0]) > 60 else [])
     out.trace = {"kicks": [[k["tag"], k["t"] - case["base_us"]] for k in res["kicks"]][:12]}
     return out
 
